@@ -64,6 +64,7 @@ def step (line : String) : String :=
   | "gwhite" :: args => opGWhite args
   | "upd" :: args => opUpd args
   | "gen" :: args => opGen args
+  | "genupd" :: args => opGenUpd args
   | "noop" :: args => opNoop args
   | _ => "bad-op"
 
